@@ -182,10 +182,25 @@ def gen_long_arrays(rng, tier):
                 yield {"style": style, "match": q(), "rels": rels, "doc": doc, "seed": 17}
 
 
+def gen_json_text_strings(rng, tier):
+    """matches that are STRINGS holding JSON text (or bracket-looking text): strings are not containers, nothing is projected"""
+    def q(*segs):
+        return {"first": {"fake": False, "segs": list(segs)}, "rest": []}
+    doc = {"note": "[1, 2, 3]", "p": '{"user": "sue", "ok": true}', "bad": "a[0]", "brace": "{", "n": 5, "t": True, "z": None, "s": "plain",
+           "events": [{"payload": '{"user": "sue"}'}, {"payload": {"user": "bob"}}, {"payload": "[[1], [2]]"}]}
+    for style in STYLES:
+        for m in (q(["list", ["name", "note"]]), q(["sel", "wild"]), q("desc", ["sel", "wild"]), q(["list", ["name", "events"]], ["sel", "wild"], ["list", ["name", "payload"]]),
+                  q(["list", ["name", "bad"], ["name", "brace"], ["name", "p"]])):
+            for rels in ([q(["list", ["idx", 0]])], [q(["list", ["name", "user"]])], [q(["sel", "wild"])], [q(["list", ["idx", 0]]), q(["list", ["name", "user"]])],
+                         [q("desc", ["sel", "wild"])]):
+                yield {"style": style, "match": m, "rels": rels, "doc": doc, "seed": 19}
+
+
 _gen_main = gen
 
 
 def gen(rng, tier):      # noqa: F811
+    yield from gen_json_text_strings(rng, tier)
     yield from gen_long_arrays(rng, tier)
     yield from _gen_main(rng, tier)
     yield from gen_keys_only(rng, tier)
